@@ -37,7 +37,7 @@ REG[('ModSeq', 'update')] = weak_update
 REG[('ModSeq', 'expunge')] = weak_expunge
 REG[('Cache', 'get')] = D.opaque(D.Content, 'cached_content')
 
-append = Contract('C03', D.F, 'MailboxData.append', variant='content',
+append = Contract('C03', D.F, 'MailboxData.append', globals=D.GLOBALS, variant='content',
                   params=dict(self=D.MBX, append_msg=D.AppendMsg, recent=BOOL), calls=_calls,
                   ghost_init=D.ghost_init, returns=D.Msg,
                   ensures=[('stores_the_content_parsed_from_this_literal',
